@@ -27,7 +27,7 @@ def drive(seed, sessions, start, selfcheck_every, tag):
     if os.path.exists(out):
         os.remove(out)
     rc, o = sh([BIN, "drive", "--seed", str(seed), "--sessions", str(sessions), "--start", str(start), "--jobs", "16",
-                "--selfcheck-every", str(selfcheck_every), "--repo", "/repo", "--shim", SHIM, "--out", out, "--replay-dir", REPLAYS])
+                "--selfcheck-every", str(selfcheck_every), "--repo", "/repo", "--shim", SHIM, "--tmp-root", os.path.join(BUILD, "sessim-tmp"), "--out", out, "--replay-dir", REPLAYS])
     if not os.path.exists(out):
         raise Harness("sessim drive crashed (rc=%s):\n%s" % (rc, o[-4000:]))
     s = json.load(open(out))
@@ -47,7 +47,7 @@ def main(tier, seed, replay):
             if layer == "A2-miri":
                 import c19_a2
                 return c19_a2.replay(replay)
-            rc, out = sh([BIN, "replay", replay, "--shim", SHIM])
+            rc, out = sh([BIN, "replay", replay, "--shim", SHIM, "--tmp-root", os.path.join(BUILD, "sessim-tmp")])
             print(out, end="")
             return rc
         return do_check(tier, seed, t0)
@@ -81,7 +81,7 @@ def do_check(tier, seed, t0):
         if not d:
             raise Harness("reach probe %s is zero" % "/".join(path))
     for v in a["violations"]:
-        rc, out = sh([BIN, "replay", v["replay"], "--shim", SHIM])
+        rc, out = sh([BIN, "replay", v["replay"], "--shim", SHIM, "--tmp-root", os.path.join(BUILD, "sessim-tmp")])
         if rc != 1:
             raise Harness("violation %s did not reproduce on replay (rc=%d):\n%s" % (v["replay"], rc, out[-2000:]))
         viol_lines.append("VIOLATION property=C19 replay=%s" % v["replay"])
